@@ -1,12 +1,15 @@
 # C13 — background task manager (task/task.go)
 PROPS["C13"] = dict(
     props_file="Properties/C13.v",
-    harnesses=[dict(cmd="task", mod="root", model="Model.Task", quick=600, thorough=30000, shard=100,
+    harnesses=[dict(cmd="task", mod="root", model="Model.Task", quick=600, thorough=20000, shard=100,
                     require=["op.invoke", "op.invoke.manual", "op.invoke.prompt", "op.prio", "op.done", "op.silence", "op.finish", "op.fast",
                              "conc.1", "conc.2", "conc.3",
-                             "ev.acquire", "ev.decide", "ev.start", "ev.cancel", "ev.join", "ev.finish", "ev.release", "ev.return",
+                             "ev.invoke", "ev.acquire", "ev.decide", "ev.start", "ev.finish", "ev.release", "ev.return",
                              "ev.prio-begin", "ev.prio-end", "ev.prio-dec", "ev.body-done",
-                             "result.retry", "result.decide.defer", "result.body.cancelled", "result.body.completed"])],
+                             # set up by the script itself (the manager's reactions - cancel, join, retry, deferred decision - are NOT
+                             # required here: their absence is a symptom of a broken manager and must surface as a VIOLATION)
+                             "sched.prio-while-body-running", "sched.prio-nested", "sched.invoke-while-not-quiet",
+                             "sched.invoke-while-slots-busy"])],
     rule="scripted schedules on the real task.BackgroundTaskManager (concurrency 1..3, up to 4 concurrent invocations whose bodies "
          "finish / react to cancellation only when the script says so (manual) or on cancellation (prompt), up to 3 overlapping prioritized "
          "begin/end pairs, silence periods ended by the script, each op either followed by a settle or racing with the manager's goroutines); the manager's decisions are recorded through the verif hooks in its own lock order; "
